@@ -155,6 +155,12 @@ func runC11(k int, rng *Rng) CaseResult {
 		return w.finish(nil, false, nil)
 	}
 	shape := k % 10
+	// other collections on the same handle (healthy ones): Control speaks for the whole handle, its
+	// verdict on this collection does not depend on how many others are loaded, nor on their order
+	multi := rng.P(0.4)
+	if multi && !w.otherCollections(true) {
+		return w.finish(nil, false, nil)
+	}
 	o := HistOpts{Steps: 3 + rng.Intn(14), MaxObjs: 12, Rec: RecOpts{ValidOnly: true, Simple: true},
 		Mix: Mix{Ins: 55, Upd: 25, Del: 8, Many: 6}}
 	if shape == 0 {
@@ -366,11 +372,21 @@ func runC11(k int, rng *Rng) CaseResult {
 	if w.failed() {
 		return w.finish(w.absOps, true, nil)
 	}
-	if !rmSchema || !diverged {
-		w.call("Control", func() { err = w.db.Control() })
-		if diverged != sod.IsIndexCorrupted(err) || (!diverged && err != nil) {
-			w.fail("control-verdict", "Control", faultClass, fmt.Sprintf("faults %v diverged=%v: err=%v", faults, diverged, err))
+	nControl := 1
+	if multi {
+		if !w.otherCollections(false) {
 			return w.finish(w.absOps, true, nil)
+		}
+		w.abs("multi")
+		nControl = 6
+	}
+	if !rmSchema || !diverged {
+		for i := 0; i < nControl; i++ {
+			w.call("Control", func() { err = w.db.Control() })
+			if diverged != sod.IsIndexCorrupted(err) || (!diverged && err != nil) {
+				w.fail("control-verdict", "Control", faultClass+map[bool]string{true: "+other-collections", false: ""}[multi], fmt.Sprintf("faults %v diverged=%v, call %d: err=%v", faults, diverged, i+1, err))
+				return w.finish(w.absOps, true, nil)
+			}
 		}
 	}
 	// ---- Repair ----
@@ -410,10 +426,51 @@ func runC11(k int, rng *Rng) CaseResult {
 			return w.finish(w.absOps, true, nil)
 		}
 	}
-	w.call("Control", func() { err = w.db.Control() })
-	if err != nil {
-		w.fail("control-after-repair", "Control", faultClass, err.Error())
-		return w.finish(w.absOps, true, nil)
+	for i := 0; i < nControl; i++ {
+		w.call("Control", func() { err = w.db.Control() })
+		if err != nil {
+			w.fail("control-after-repair", "Control", faultClass, err.Error())
+			return w.finish(w.absOps, true, nil)
+		}
+	}
+	// a divergence in another collection of the handle is reported as well, whatever the others'
+	// state, and its Repair leaves this collection alone
+	if multi && rng.P(0.5) {
+		od := filepath.Join(w.root, w.dirName("main.Other"))
+		ents, _ := os.ReadDir(od)
+		rm := ""
+		for _, e := range ents {
+			if strings.HasSuffix(e.Name(), ".json") && e.Name() != "schema.json" {
+				rm = e.Name()
+				break
+			}
+		}
+		if rm == "" {
+			w.incon = "harness: no object file in the other collection"
+			return w.finish(w.absOps, true, nil)
+		}
+		os.Remove(filepath.Join(od, rm))
+		w.logf("object file %s of the other collection removed behind the running handle", rm)
+		for i := 0; i < nControl; i++ {
+			w.call("Control", func() { err = w.db.Control() })
+			if !sod.IsIndexCorrupted(err) {
+				w.fail("divergence-undetected", "Control(other collection)", "rmfile+other-collections", fmt.Sprintf("call %d: err=%v", i+1, err))
+				return w.finish(w.absOps, true, nil)
+			}
+		}
+		w.call("Repair", func() { err = w.db.Repair(&Other{}) })
+		if err != nil {
+			w.fail("repair-error", "Repair(other collection)", "rmfile", err.Error())
+			return w.finish(w.absOps, true, nil)
+		}
+		for i := 0; i < nControl; i++ {
+			w.call("Control", func() { err = w.db.Control() })
+			if err != nil {
+				w.fail("control-after-repair", "Control(other collection)", "rmfile", err.Error())
+				return w.finish(w.absOps, true, nil)
+			}
+		}
+		w.abs("other-diverged")
 	}
 	// searches and reads must reflect file contents
 	w.m.objs = objs
@@ -474,4 +531,48 @@ func c11Sample(k int, cfg Config, faults []string, w *World) interface{} {
 		return nil
 	}
 	return map[string]interface{}{"config": cfg.String(), "content_ops": w.absOps, "faults": faults}
+}
+
+// otherCollections creates (create=true) or loads two more collections on the handle, each holding
+// two objects.
+func (w *World) otherCollections(create bool) bool {
+	osch := sod.DefaultSchema
+	osch.Cache = w.cfg.Cache
+	var err error
+	for _, o := range []sod.Object{&Other{}, &Tagged{}} {
+		o := o
+		if !create {
+			w.call("Schema(other collection)", func() { _, err = w.db.Schema(o) })
+			if err != nil {
+				w.fail("control-false-positive", "Schema(other collection)", "-", err.Error())
+				return false
+			}
+			continue
+		}
+		w.call("Create(other collection)", func() {
+			if err = w.db.Create(o, osch); err != nil {
+				return
+			}
+			for i := 0; i < 2 && err == nil; i++ {
+				switch o.(type) {
+				case *Other:
+					err = w.db.InsertOrUpdate(&Other{A: i, B: fmt.Sprintf("b%d", i)})
+				case *Tagged:
+					err = w.db.InsertOrUpdate(&Tagged{Name: fmt.Sprintf("n%d", i), Code: "c", Num: int64(i)})
+				}
+			}
+		})
+		if err != nil {
+			w.fail("create-failed", "Create(other collection)", "-", err.Error())
+			return false
+		}
+	}
+	return true
+}
+
+func (w *World) dirName(typ string) string {
+	if w.cfg.LowerName {
+		return goldenLowerName(typ)
+	}
+	return typ
 }
